@@ -36,10 +36,16 @@ REQUIRED = ["NLOGINOK", "NLOGINREFUSED", "NWORKPOOLED", "NWORKSILENT", "NWORKAUT
             # credential to an invalid one (refused) / to a valid one (pooled) / rejects
             "NOIDCEXPIREDREFUSED", "NPLUGREWRITEREFUSED", "NPLUGREWRITEPOOLED", "NPLUGREJECT",
             # round 4: frps with an EMPTY auth.token still checks keys against md5("" ++ ts)
-            "NEMPTYTOKENREFUSED"]
+            "NEMPTYTOKENREFUSED",
+            # round 6: Login plugin chain: credential replaced by an invalid one (refused) / by a valid one or user rewritten (session),
+            # reject, reject on the internal listener with the always-pass flag
+            "NLOGINPLUGBADKEY", "NLOGINPLUGOK", "NLOGINPLUGREJECT", "NINTERNALPASSPLUGREJECT"]
 
 
-SSH_REQUIRED = ["NSSHATTACKREFUSED", "NSSHSESSIONKEY", "NSSHSESSIONTOKEN", "NSSHREFUSEDSSH", "NSSHREFUSEDLOGIN"]
+SSH_REQUIRED = ["NSSHATTACKREFUSED", "NSSHSESSIONKEY", "NSSHSESSIONTOKEN", "NSSHREFUSEDSSH", "NSSHREFUSEDLOGIN",
+                # round 6: gateway sessions with a Login server plugin configured (reject honoured, rewritten user adopted)
+                "NSSHPLUGINREFUSED", "NSSHPLUGINUSER"]
+INI_REQUIRED = ["NINICASES", "NINIUNACCEPTABLEREFUSED", "NINIWAIVEDACCEPTED"]
 
 
 def overlay_build(c: Check):
@@ -82,14 +88,21 @@ def recipe(c: Check):
         if err:
             c.broken.append(dict(kind="harness-build", name="overlay build of harness c04 (ssh client that skips the none probe)", detail=err))
             c.harness_ok = False
-    sst = c.run_driver("sshgw", 45, shards=2)
+    ist = c.run_driver("ini", 96, shards=2)
+    if ist is not None:
+        counters = c.cov.get("coq_counters", {}).get("ini", {})
+        for k in INI_REQUIRED:
+            if counters.get(k, 0) <= 0 and not c.broken:
+                c.broken.append(dict(kind="coverage", name="driver ini never reached %s" % k,
+                                     detail="counter %s = %s" % (k, counters.get(k))))
+    sst = c.run_driver("sshgw", 57, shards=2)
     if sst is not None:
         counters = c.cov.get("coq_counters", {}).get("sshgw", {})
         for k in SSH_REQUIRED:
             if counters.get(k, 0) <= 0 and not c.broken:
                 c.broken.append(dict(kind="coverage", name="driver sshgw never reached %s" % k,
                                      detail="counter %s = %s" % (k, counters.get(k))))
-    st = c.run_driver("auth", q(c.tier, 240, 4000), shards=q(c.tier, 8, 16))
+    st = c.run_driver("auth", q(c.tier, 200, 4000), shards=q(c.tier, 8, 16))
     if st is not None:
         counters = c.cov.get("coq_counters", {}).get("auth", {})
         for k in REQUIRED:
@@ -97,7 +110,11 @@ def recipe(c: Check):
                 c.broken.append(dict(kind="coverage", name="driver auth never reached %s" % k,
                                      detail="counter %s = %s" % (k, counters.get(k))))
     return c.finish(
-        rule="sshgw driver: fresh in-process frps with sshTunnelGateway per case, one golang.org/x/crypto/ssh connection each over "
+        rule="ini driver: 96 combinations of the authentication keys of a legacy frps.ini and the equivalent toml through the real "
+             "config.LoadServerConfig (each key must arrive in the v1 field of the same meaning); for oidc a frps started from the ini-loaded "
+             "configuration is presented valid / expired / other-issuer / other-audience / foreign-key tokens under every combination of "
+             "oidc_audience, oidc_skip_expiry_check, oidc_skip_issuer_check and compared with au_oidc_policy_verify. sshgw driver (+12 cases "
+             "with a Login server plugin configured: same / reject / rewrites user): fresh in-process frps with sshTunnelGateway per case, one golang.org/x/crypto/ssh connection each over "
              "authorized_keys {not configured, configured, unreadable} x client {none only, stock with unknown key, stock with authorised key, "
              "straight-to-publickey (no none probe; build-time overlay of x/crypto client_auth.go) with unknown key, ... with authorised key} x "
              "--token {right, wrong, absent}; compared with Model/SshGate.v: handshake accepted, session, proxy, always-pass flag, table size. "
